@@ -173,7 +173,9 @@ static u64 op_addresses(Rng& r) {
     return h;
 }
 static u64 op_utils(Rng& r) {
-    u64 h = 9; Bytes b = r.bytes(r.below(300)); h = mix(h, Utils::crc32(b.data(), (u32)b.size())); h = mix(h, Utils::sum_range(b.data(), b.data() + b.size()));
+    u64 h = 9;
+    // an outermost IP layer without source address asks the routing table for one while it is serialized (loopback destinations: no network needed)
+    if (r.chance(1, 3)) { try { IP ip(r.chance(1, 2) ? "127.0.0.1" : "127.0.0.2"); Bytes b2 = r.bytes(4 + r.below(20)); ip /= RawPDU(b2.data(), (u32)b2.size()); Bytes y = ip.serialize(); h = fnv(y.data(), y.size(), h); mark("utils:ip-root-without-source-serialized"); } catch (const std::exception& e) { h = mix(h, fnv(std::string(typeid(e).name()))); mark("utils:ip-root-without-source-threw"); } } Bytes b = r.bytes(r.below(300)); h = mix(h, Utils::crc32(b.data(), (u32)b.size())); h = mix(h, Utils::sum_range(b.data(), b.data() + b.size()));
     h = mix(h, fnv(Utils::to_string((PDU::PDUType)r.below(60)))); h = mix(h, Utils::channel_to_mhz((u16)(1 + r.below(13))));
     h = mix(h, Utils::pseudoheader_checksum(IPv4Address((u32)r.next()), IPv4Address((u32)r.next()), (u16)r.next(), 6));
     return h;
